@@ -44,6 +44,10 @@ func (lens *lens[S, A]) Gett(s any) A {
 
 // NewReflector instantiates a typed Reflector[S, A] for hseq.Type[S]
 func NewReflector[S, A any](t hseq.Type[S]) Reflector[A] {
+	if cat := reflect.TypeOf(new(S)).Elem(); cat.Kind() != reflect.Struct {
+		panic(fmt.Errorf("invalid type: Reflector[%s, %s] container must be a struct, got %s", cat, t.Type, cat.Kind()))
+	}
+
 	ft := t.Type
 	fv := reflect.TypeOf(new(A)).Elem()
 
